@@ -12,7 +12,7 @@ from pv.core import Sub, Fail, exc_fail
 ID = "C01"
 LEVEL = "exploration"
 RULE = ("Sub 'schedules': Hypothesis draws (catalogue entry [+ strategy variant for sort-backed entries], sources, a schedule "
-        "of <=24 new/advance/drop/drain actions over 3 iterator slots, optionally opened by a completed pass, 1-2 final fresh passes); every advance must return the "
+        "[, optionally ONE object - wrapped in a cache/sort/spill stage - as every input of a binary operator], of <=24 new/advance/drop/drain actions over 3 iterator slots, optionally opened by a completed pass, 1-2 final fresh passes); every advance must return the "
         "next item of a solo pass over an identically built view (StopIteration exactly at its end) and fresh passes must "
         "equal the solo pass. Sub 'interleavings' (thorough tier): for every entry/variant and a fixed 3-row source, ALL "
         "interleavings of two iterators (second iterator created at any point, each advanced 0..len+1 times, so every "
@@ -66,8 +66,12 @@ def _norm(e):
     return ITERABLE_NONVIEWS.get(e.name, tuple)
 
 
-def _build(e, S, variant, tmp, res=None, upstream="none"):
-    if upstream != "none":
+def _build(e, S, variant, tmp, res=None, upstream="none", diamond=False):
+    if diamond and len(S) >= 2:
+        # the SAME (possibly wrapped) object is every input of the operator: petl itself then interleaves iterators over it
+        one = UPSTREAM[upstream](S[0], tmp)
+        S = [one] * len(S)
+    elif upstream != "none":
         S = [UPSTREAM[upstream](t, tmp) for t in S]
     kw = dict(VARIANTS[variant])
     if kw and tmp is not None:
@@ -92,8 +96,11 @@ def _case(draw, tier, targets):
     elif opening == "pass-beside-live":
         acts = [("new", 1), ("adv", 1), ("drain", 0), ("new", 0)] + acts
     up = draw(st.sampled_from(["none", "none", "none"] + sorted(UPSTREAM))) if (e.n >= 1 and not e.has("file") and not e.cells) else "none"
+    diamond = e.n >= 2 and not e.has("file") and not e.cells and draw(st.integers(0, 3)) == 0
+    if diamond:
+        S = [S[0]] * e.n
     return {"entry": name, "variant": variant, "sources": S, "schedule": [list(a) for a in acts],
-            "fresh": draw(st.integers(1, 2)), "upstream": up}
+            "fresh": draw(st.integers(1, 2)), "upstream": up, "diamond": diamond}
 
 
 def case(tier, shard=0, nshards=1):
@@ -112,12 +119,23 @@ def run_schedule(case, ctx):
     ctx.label("entry:" + e.name, "variant:" + variant, "upstream:" + up)
     # the solo pass of an identically built view over separately copied sources
     res = e.prepare(codec.snapshot(case["sources"]), tmp) if e.has("file") else None
+    diamond = bool(case.get("diamond"))
     try:
         solo = [norm(r) for r in _build(e, codec.snapshot(case["sources"]), variant, tmp, res, up)]
     except Exception as ex:
         ctx.label("rejected:" + type(ex).__name__)  # totality is not C01's business
         return None
-    view = _build(e, codec.snapshot(case["sources"]), variant, tmp, res, up)
+    if diamond:
+        # one object as every input must behave like equal but separate inputs
+        ctx.label("diamond")
+        try:
+            dsolo = [norm(r) for r in _build(e, codec.snapshot(case["sources"]), variant, tmp, res, up, diamond=True)]
+        except Exception as ex:
+            return exc_fail("%s/%s/diamond" % (e.name, variant), ex)
+        if dsolo != solo:
+            return Fail("%s/%s/diamond-differs" % (e.name, variant), "with one object (upstream %s) as every input the pass gave %r, with "
+                        "equal separate inputs %r" % (up, dsolo, solo))
+    view = _build(e, codec.snapshot(case["sources"]), variant, tmp, res, up, diamond=diamond)
     its = {}
     live_max = 0
     last = None
